@@ -165,13 +165,34 @@ func Ref(alg string, wire []byte, fin error) (open string, out []byte, term stri
 	return RefSched(alg, wire, fin, 0, nil)
 }
 
-// RefSched is Ref under a given schedule: the library reads the body in chunks of at most
+// RefRaw is Ref WITHOUT the source-failure rule of RefSched: the library's own verdict (klauspost
+// zstd reports a source that fails at a frame boundary as a clean io.EOF). Only for recognising
+// the input class of the known finding zstd-source-error-at-frame-boundary.
+func RefRaw(alg string, wire []byte, fin error) (open string, out []byte, term string) {
+	return RefSchedRaw(alg, wire, fin, 0, nil)
+}
+
+// RefSched is the reference meaning of a body under a schedule (see RefSchedRaw) with one rule on
+// top of the library: a body that BROKE OFF (fin is not io.EOF) has not ended cleanly. The zstd
+// decoder turns the source's error into io.EOF when it strikes exactly between two frames (offset
+// 0 included); a reader over a response body must report the failure (ZstdReader does since
+// fixes/C14-12: it remembers the first non-EOF error of the body). The other three libraries pass
+// the source's error through by themselves.
+func RefSched(alg string, wire []byte, fin error, chunk int, sizes []int) (open string, out []byte, term string) {
+	open, out, term = RefSchedRaw(alg, wire, fin, chunk, sizes)
+	if alg == "zstd" && open == "ok" && term == "eof" && fin != io.EOF {
+		term = Term(fin)
+	}
+	return
+}
+
+// RefSchedRaw is RefRaw under a given schedule: the library reads the body in chunks of at most
 // `chunk` bytes and is itself read with the buffer sizes `sizes` in turn (nil = 64 KiB). On
 // intact streams the schedule does not matter; on corrupted ones it can (andybalholm/brotli
 // accepts a bit-flipped 11-byte stream decoded in one go and reports an unexpected EOF when
 // the same bytes arrive in small pieces), so the unit lanes compare a lazy reader with the
 // library driven by exactly the same schedule.
-func RefSched(alg string, wire []byte, fin error, chunk int, sizes []int) (open string, out []byte, term string) {
+func RefSchedRaw(alg string, wire []byte, fin error, chunk int, sizes []int) (open string, out []byte, term string) {
 	defer func() {
 		// andybalholm/brotli v1.1.1 can PANIC (index out of range in decoderDecompressStream) on a
 		// corrupted stream: reported as constructor result "panic"
